@@ -220,7 +220,8 @@ def phase_mc(ctx, thorough):
     w = vlib.NCPU // 2 if thorough else 3
     zeros = []
     for cfg, what in (('MC_CPCtrl.cfg', 'intended design (Gate), free environment: flush + copy beside a full handshake'),
-                      ('MC_CPCtrl_disc.cfg', 'as implemented, disciplined environment')):
+                      ('MC_CPCtrl_disc.cfg', 'as implemented, disciplined environment'),
+                      ('MC_CPCtrl_2shoot.cfg', 'as implemented: shootdowns and copies back to back, the second shootdown is held')):
         r = ctx.tlc_expect_ok(['cpctrl'], 'MC_CPCtrl.tla', cfg, coverage=(cfg == 'MC_CPCtrl.cfg'), timeout=1200, workers=w)
         ctx.log('%s (%s): %d distinct states, depth %d' % (cfg, what, r.distinct, r.depth))
         if cfg == 'MC_CPCtrl.cfg':
